@@ -42,6 +42,9 @@ func mgmtAlphabet() []EOp {
 		{Kind: "upds", Sec: "p", PType: "p", Rules: [][]string{P[0], P[1]}, News: [][]string{P[0], {"admin", "data2", "read"}}},
 		// a filter made of empty values only selects every rule (DeleteUser("") does that)
 		{Kind: "rmf", Sec: "p", PType: "p", FI: 0, Vals: []string{""}},
+		// single updates of a rule to itself: nothing changes, not even the index the next calls rely on
+		{Kind: "upd", Sec: "p", PType: "p", Rule: P[0], New: P[0]},
+		{Kind: "upd", Sec: "g", PType: "g", Rule: G[0], New: G[0]},
 	}
 	return ops
 }
@@ -101,7 +104,7 @@ func runC10(c *Ctx) {
 		depth = 4
 	}
 	c.Exhaustive = true
-	c.Rule = fmt.Sprintf("all management-call histories of depth <= %d over a 22-call alphabet (p and g; single, batch, Ex, update, batch update, filtered removal, UpdateFilteredPolicies) plus SavePolicy/LoadPolicy, with the recording set-semantics adapter implementing every optional interface, under both auto-save settings, and over an 11-call alphabet on a subject-priority model whose store is loaded out of hierarchy order (implementation only: live vs freshly loaded, rule list vs index); after every call the adapter contents and call log are compared with the Lean model and, after every successful call with auto-save on, a second real enforcer freshly loaded from the adapter must make the same decisions over the 16-request universe (checked on the implementation); the file/string adapter save/load round trip over loadable fields; non-trivial = a history with a call that changed the policy and one that was refused; distinct = whole history", depth)
+	c.Rule = fmt.Sprintf("all management-call histories of depth <= %d over a 24-call alphabet (p and g; single, batch, Ex, update, batch update, filtered removal, UpdateFilteredPolicies) plus SavePolicy/LoadPolicy, with the recording set-semantics adapter implementing every optional interface, under both auto-save settings, and over an 11-call alphabet on a subject-priority model whose store is loaded out of hierarchy order (implementation only: live vs freshly loaded, rule list vs index); after every call the adapter contents and call log are compared with the Lean model and, after every successful call with auto-save on, a second real enforcer freshly loaded from the adapter must make the same decisions over the 16-request universe (checked on the implementation); the file/string adapter save/load round trip over loadable fields; non-trivial = a history with a call that changed the policy and one that was refused; distinct = whole history", depth)
 	for _, autosave := range []bool{true, false} {
 		autosave := autosave
 		alpha := append(mgmtAlphabet(), EOp{Kind: "save"}, EOp{Kind: "load"})
@@ -269,7 +272,8 @@ func runC10(c *Ctx) {
 
 func runC11(c *Ctx) {
 	c.Exhaustive = true
-	c.Rule = "fault enumeration: from every state reachable in <= 1 call (quick) / <= 2 calls (thorough) over the 22-call management alphabet: every management call, SavePolicy and LoadPolicy x failure of its k-th adapter call (k = 1, 2), LoadPolicy failing after k delivered lines for every k <= number of lines, role-link rebuilding failing at the j-th link for every j; observed: returned error, listed rules, HasLink over the universe, decisions over 16 requests, before vs after (on the implementation) and against the Lean model; non-trivial = a fault that was actually hit (the call reported an error); distinct = (prefix, call, fault)"
+	c.Rule = "fault enumeration: from every state reachable in <= 1 call (quick) / <= 2 calls (thorough) over the 24-call management alphabet: every management call, SavePolicy and LoadPolicy x failure of its k-th adapter call (k = 1, 2), LoadPolicy failing after k delivered lines for every k <= number of lines, role-link rebuilding failing at the j-th link for every j; the calls of the RBAC API and its domain variants (20 calls) x failure of their k-th adapter call for every k they make (implementation only; the four calls composed of several management calls only for k = 1: finding D40); observed: returned error, listed rules, HasLink over the universe, decisions over 16 requests, before vs after (on the implementation) and against the Lean model; non-trivial = a fault that was actually hit (the call reported an error); distinct = (prefix, call, fault)"
+	c11RbacFaults(c)
 	alpha := mgmtAlphabet()
 	prefixes := [][]EOp{{}}
 	for _, o := range alpha {
@@ -490,23 +494,29 @@ func runC15(c *Ctx) {
 		depth = 3
 	}
 	c.Exhaustive = true
-	c.Rule = fmt.Sprintf("all management-call histories of depth <= %d (effective, no-op and failing calls; failing = the first adapter call of the last step is armed to fail in a second pass) x {Watcher, WatcherEx, UpdatableWatcher, WatcherEx+Updatable} x auto-notify on/off (and auto-save off for two watcher kinds: announcements do not depend on it), two real enforcers sharing the recording in-memory adapter over a synchronous bus: the notification log (kind and arguments) is compared with the Lean model after every call, and on the implementation: exactly one notification per effective call, none for false/error results and Self* calls, and the peer, reloading on every notification, reaches the originator's decisions; non-trivial = a history with an effective and a no-op call; distinct = (watcher kind, flags, history)", depth)
+	c.Rule = fmt.Sprintf("all management-call histories of depth <= %d (effective, no-op and failing calls; failing = the first adapter call of the last step is armed to fail in a second pass) x {Watcher, WatcherEx, UpdatableWatcher, WatcherEx+Updatable} x auto-notify on/off (and auto-save off for two watcher kinds: announcements do not depend on it; and for two kinds from a store that already holds a p and a g rule), two real enforcers sharing the recording in-memory adapter over a synchronous bus: the notification log (kind and arguments) is compared with the Lean model after every call, and on the implementation: exactly one notification per effective call, none for false/error results and Self* calls, and the peer, reloading on every notification, reaches the originator's decisions; non-trivial = a history with an effective and a no-op call; distinct = (watcher kind, flags, history)", depth)
 	type c15Variant struct {
 		wk               string
 		notify, autosave bool
+		preloaded        bool // the store already holds a p and a g rule: histories start from a non-empty policy
 	}
 	var variants []c15Variant
 	for _, wk := range []string{"plain", "ex", "upd", "exupd"} {
-		variants = append(variants, c15Variant{wk, true, true}, c15Variant{wk, false, true})
+		variants = append(variants, c15Variant{wk, true, true, false}, c15Variant{wk, false, true, false})
 	}
 	// notification does not depend on auto-save: with it off every effective call is still announced
-	variants = append(variants, c15Variant{"plain", true, false}, c15Variant{"exupd", true, false})
+	variants = append(variants, c15Variant{"plain", true, false, false}, c15Variant{"exupd", true, false, false})
+	variants = append(variants, c15Variant{"exupd", true, true, true}, c15Variant{"plain", true, true, true})
 	for _, v := range variants {
 		{
 			notify := v.notify
 			wk := v.wk
 			autosave := v.autosave
-			cfg := &HistCfg{Name: fmt.Sprintf("%s/notify=%v/autosave=%v", wk, notify, autosave), MS: rbacSpec(false, false), Opts: CaseOpts{Adapter: true, Watcher: wk},
+			opts := CaseOpts{Adapter: true, Watcher: wk}
+			if v.preloaded {
+				opts.ALines = []memLineT{{PType: "p", Rule: []string{"alice", "data1", "read"}}, {PType: "g", Rule: []string{"alice", "admin"}}}
+			}
+			cfg := &HistCfg{Name: fmt.Sprintf("%s/notify=%v/autosave=%v/preloaded=%v", wk, notify, autosave, v.preloaded), MS: rbacSpec(false, false), Opts: opts,
 				Depth: depth, Alphabet: append(mgmtAlphabet(), EOp{Kind: "save"}),
 				Probes: []EOp{{Kind: "obs", Args: []string{"notif"}}},
 			}
